@@ -5,7 +5,7 @@
   (predicates on what the implementation returned) and the tie with the assembler model.
 -/
 import Gmars.Driver.TextRun
-import Gmars.Spec.Program
+import Gmars.Spec.ProgramTail
 import Gmars.Model.Assemble
 
 namespace Gmars.Driver
@@ -76,11 +76,15 @@ def parseItems : Nat → List String → Option (List Item × List String)
       pure (.for_ (parseLabels ls) ctr cnt body :: more, r')
     | _ => none
 
-def parseProgram (s : String) : Option (List Item) :=
-  if s == "-" then some [] else
+/-- the program and the labels written on its END line (a final `T|l1,l2` entry) -/
+def parseProgram (s : String) : Option (List Item × List String) :=
+  if s == "-" then some ([], []) else
   let toks := (s.splitOn ";").filter (· != "")
+  let (toks, tail) := match toks.getLast? with
+    | some t => if t.startsWith "T|" then (toks.dropLast, parseLabels (t.drop 2).toString) else (toks, [])
+    | none => (toks, [])
   match parseItems (2 * toks.length + 2) toks with
-  | some (items, []) => some items
+  | some (items, []) => some (items, tail)
   | _ => none
 
 /-- result + goroutine delta: `ok … g=0`, `err z=1 g=0`, `timeout`, `panic:…` -/
@@ -209,8 +213,8 @@ def runAsmLine (modelAsm : Option (Config → List Nat → String)) (line : Stri
           if prog != "-" && tag != "soup" then
             match parseProgram prog with
             | none => out := out ++ [s!"V {id} {tag} PARSE op=0 program"]
-            | some items =>
-              let mng := meaning (specCfg cfg) items
+            | some (items, tail) =>
+              let mng := meaningT (specCfg cfg) items tail
               let pid := propOfTag tag
               let implS := if o.r.kind == "ok" then showWResult o.r else if o.r.kind == "err" then "reject" else o.r.kind
               let wantS := showMeaning mng
